@@ -378,8 +378,11 @@ def set_at(obj, path, value):
 def mutate_scalar(v, rng):
     """A different value of the same JSON type."""
     if isinstance(v, bool):
-        return not v
+        # (sometimes the integer that compares equal to it in Python: another JSON value, other signed bytes)
+        return (1 if v else 0) if rng.random() < 0.5 else (not v)
     if isinstance(v, int):
+        if v in (0, 1) and rng.random() < 0.4:
+            return bool(v)
         return v + rng.choice([1, -1, 7])
     if isinstance(v, str):
         import unicodedata
